@@ -70,9 +70,9 @@ def run(rep, tier):
     rep.add_tlc(r3, "MLTune.tla (confluence of the (trial, fold) tasks: ResultIsSequential)")
     if not r3.ok:
         rep.violation("MLTune.tla violates %s" % r3.invariant_violated, payload=r3.out[-4000:])
-    nproc, rounds, fits = (4, 1, 3) if tier == "quick" else (12, 4, 24)
+    nproc, rounds, fits = (4, 1, 8) if tier == "quick" else (12, 4, 40)
     total, nconc, nfit, whats, results = drive_all(rep, "rel", nproc, rounds, fits, "")
-    if not rep.violations and (nconc < 500 or nfit < 12 or len(whats) < 4):
+    if not rep.violations and (nconc < 500 or nfit < 30 or len(whats) < 4):
         raise CheckError("shared-object coverage too small: %d concurrent calls, %d fit comparisons, %s" % (nconc, nfit, whats))
     rep.sample([x for x in results[0][6] if x["e"] in ("Reset", "Solo", "Conc")][:5])
     rep.sample([x for x in results[0][6] if x["e"] == "Fit"][0])
